@@ -46,6 +46,11 @@ Observe(t) ==
 \* replacement set for substitution values: unrelated plain values and an unconvertible one
 SubRepl == Unrelated \cup {VObj("tuple12", <<>>, NoneOpt)}
 
+\* values sitting exactly on a declared numeric bound (where tolerance and bounds meet)
+BoundValues == IF s.t \in {"int", "float"}
+               THEN (IF IsSome(s.min) THEN {Get(s.min)} ELSE {}) \cup (IF IsSome(s.max) THEN {Get(s.max)} ELSE {})
+               ELSE {}
+
 Substitute(x) ==
   /\ phase = "seeded"
   /\ phase' = "sub"
@@ -55,7 +60,7 @@ Substitute(x) ==
 
 Next == \/ phase = "build" /\ src = "dsl" /\ \E c \in Calls(s.t) : Declare(c)
         \/ \E t \in ConstTapes : Observe(t)
-        \/ phase = "seeded" /\ \E x \in {seed} \cup Mutants(seed, SubRepl, ExtraKeys) : Substitute(x)
+        \/ phase = "seeded" /\ \E x \in {seed} \cup Mutants(seed, SubRepl, ExtraKeys) \cup BoundValues : Substitute(x)
 
 View == <<s, phase, IF phase = "seeded" THEN seed ELSE v>>
 
